@@ -364,6 +364,18 @@ def case_copy_keys(rec, c):
                         rec.fail(c, '%s (Identity %s, array %s) differs from the matrix-by-matrix result' % (order, fI, fA), tags('value', op='identity'))
             elif raised is None:
                 rec.fail(c, '%s between an Identity flagged %s and an array flagged %s was not refused' % (order, fI, fA), tags('space', op='identity'))
+    # division and multiplication by a NonSpatial array with very small entries (the pair density of a trace component)
+    tiny = P.MatrixArray(length=1, rank=rank, data=np.full((1, rank, rank), 3e-15) * (1.0 + np.arange(rank * rank).reshape(1, rank, rank)),
+                         space=P.Space.NonSpatial, types=types)
+    for sym in ('/', '*'):
+        Ax = P.MatrixArray(length=L, rank=rank, data=A0.copy(), space=P.Space.Fourier, types=types)
+        want = ref_binop(A0, tiny.data, sym)
+        R1 = do_binop(Ax, tiny, sym, False)
+        R2 = do_binop(Ax, tiny, sym, True)
+        rec.trans(2)
+        if not np.array_equal(R1.data, want) or not np.array_equal(R2.data, want):
+            rec.fail(c, 'A %s D with a NonSpatial D whose entries are ~1e-14 differs from the matrix-by-matrix result (relative deviation %.3g)'
+                     % (sym, float(np.max(np.abs(R1.data - want) / np.abs(want)))), tags('value', op=sym, operand='tiny'))
     # integer labels that are not their own positions: a key is a label, never a position
     if rank >= 2:
         ilab = list(range(rank))[1:] + [0]            # [1, 2, ..., 0]
